@@ -50,6 +50,13 @@ def timeout_scenarios(rng, n):
             op['init_dur'] = op['exit_dur'] = t * 0.4
         pool = {'n_jobs': nj, 'start_method': 'fork'}
         ops = [op]
+        if which == 'exit' and nj >= 2 and rng.random() < .5:
+            # only one worker's exit function overruns; the others are done and wait for a progress bar that lags behind
+            op['exit_dur'] = {'kind': 'map', 'map': {'0': block}, 'default': 0.0}
+            op['progress_bar'] = True
+            scs.append({'seed': rng.randint(0, 10 ** 6), 'pool': pool, 'ops': ops, 'same_func': True, 'expect': exp, 't': t, 'block': block, 'no_latency': True,
+                        'rules': [{'role': 'progress_bar_handler', 'op': rng.choice(['array.iter', 'value.get']), 'obj': None, 'sleep': rng.choice([0.5, 1.0]), 'p': .8}]})
+            continue
         if rng.random() < .4:
             # a keep-alive history before it, with an idle gap longer than the timeout
             pool['keep_alive'] = True
@@ -131,7 +138,7 @@ def judge(chk, sc, o):
         return
     # latency: first overrunning function started at t_start; the call must have raised by t_start + t + scan period + shutdown slack
     starts = [c[6] for c in o.get('calls', []) if c[0] == len(o['ops']) - 1 and c[7] is None]
-    if starts:
+    if starts and not sc.get('no_latency'):
         lat = last['t1'] - min(starts)
         bound = t + SCAN + 0.25
         if lat > bound:
